@@ -485,6 +485,8 @@ def ctor_params(check):
                 props = (pname, ps) if props is None else props
         if not any(re.fullmatch(modpat, ci.module.short) and pid in ps for modpat, pname, ps in CTOR_PARAM_PROPS):
             continue
+        if pid == "C13" and ci.name.endswith("2d"):
+            continue            # C13 is a statement about the 1D solver
         used = {x.id for x in ast.walk(f.node) if isinstance(x, ast.Name)}
         has_kwargs = f.node.args.kwarg is not None
         for prm in f.params[1:]:
